@@ -211,10 +211,12 @@ pub fn run(a: &Args) {
             o.count("l0.prefix-cases");
         }
     }
-    for (name, bytes) in &files {
+    for (fi, (name, bytes)) in files.iter().enumerate() {
         o.count("files");
         let big = bytes.len() > 5000;
         for path in 0..9u32 {
+            // thorough tier: the mixed paths on every second file (the tier otherwise takes half an hour on its own)
+            if thorough && path >= 6 && fi % 2 == 1 { continue; }
             let (whole, _) = resumable(bytes, bytes.len(), 0, path, &[0]);
             if whole.contains("err:") && !whole.contains("PolledAfterEndOfImage") {
                 o.notes.push(format!("one-shot decode of generated file reported an error (path {}): {} {}", path, name, whole.chars().take(200).collect::<String>()));
